@@ -384,6 +384,11 @@ class TransactionManager(Entity):
                 # Write-write conflict: another tx wrote a key we want to write
                 if tx._write_set.keys() & entry.keys_written:
                     return True
+                # Stale read: reads are served by the live store, so a key read
+                # by this tx and overwritten after its snapshot means the tx did
+                # not read from one consistent snapshot
+                if tx._read_set & entry.keys_written:
+                    return True
 
             elif tx._isolation == IsolationLevel.SERIALIZABLE:
                 # Write-write conflict
